@@ -94,9 +94,9 @@ func (p *parser) parse() (e *expr.Expression, err error) {
 					_, isTopToken := p.stack[len(p.stack)-1].(lex.Token)
 					if !isTopToken {
 						implAnd := lex.Token{Typ: lex.TAnd, Val: "AND"}
-						// act as if we just saw an AND and check if we need to reduce the
-						// current token stack first.
-						if !p.shouldShift(implAnd) {
+						// act as if we just saw an AND and reduce the current token stack
+						// until a real AND would be shifted.
+						for !p.shouldShift(implAnd) {
 							err = p.reduce()
 							if err != nil {
 								return e, err
